@@ -741,6 +741,11 @@ class Terms(object):
     def _elem(self, t):
         if t[0] == "new" and t[2][0] in ("list", "set") and len(t[2]) > 1:
             t = t[2]
+        inner = t[2] if t[0] == "new" else t
+        if inner[0] in ("listcomp", "setcomp", "genexp") and \
+                len(inner[2]) >= 1:
+            # an element of [f(x) for x in it] is f(<each of it>)
+            return inner[1]
         if t[0] == "call" and t[1] == ("global", "enumerate") and \
                 len(t[2]) >= 1:
             return ("tuple", ("index", t[2][0]), self._elem(t[2][0]))
@@ -1024,6 +1029,11 @@ class Terms(object):
                 self._nested[callee.name] is callee else None
             ct = Terms(callee, helpers=self.helpers, outer=outer,
                        pure=self.pure)
+            if self.hyps:
+                # under the caller's hypotheses some of the helper's returns
+                # may be unreachable
+                partial = dict(sub)
+                ct = _HypInner(ct, partial, None, self.hyps)
             for i, nm in enumerate(names):
                 if nm not in sub:
                     if i >= dn:
@@ -1036,7 +1046,9 @@ class Terms(object):
             if any(isinstance(n, (ast.Yield, ast.YieldFrom))
                    for n in ast.walk(callee) if _owner(n, callee)):
                 return None
-            if len(rets) == 2:
+            if self.hyps:
+                rets = [r for r in rets if ct.live(ct.cfg.node_of(r))]
+            if len(rets) == 2 and not self.hyps:
                 rt = ct.search_loop()
                 if rt is None:
                     return None
